@@ -34,7 +34,7 @@ def units_for(tier):
     return sorted(set(us))
 
 
-def analyse_units(rep, units, funcs_re, member=None):
+def analyse_units(rep, units, funcs_re, member=None, check_increment=False):
     d = cfgdump(units, os.path.join(OUT, rep.pid, "dump"), funcs=funcs_re, root=REPO)
     funcs = load_functions(d)
     # one definition per (qname, signature): headers are seen from several units
@@ -45,6 +45,7 @@ def analyse_units(rep, units, funcs_re, member=None):
     rep.count("units analysed", len(units))
     rep.count("functions analysed", len(funcs))
     tr = Tracker(funcs, lambda t: bool(ITER.search(t or "")), member=member)
+    tr.check_increment = check_increment
     tr.compute_summaries()
     nreq = sum(1 for k, s in tr.summ.items() for v, e in s.items() if e[0])
     nens = sum(1 for k, s in tr.summ.items() for v, e in s.items() if e[1] == "C")
@@ -306,12 +307,22 @@ def run(tier):
     rep = Report("C54", tier, "other", RULE)
     recursion_rule(rep)
     units = units_for(tier)
-    funcs, found = analyse_units(rep, units, r"^(mtest::|tfel::utilities::CxxTokenizer)")
+    funcs, found = analyse_units(rep, units, r"^(mtest::|tfel::utilities::CxxTokenizer)", check_increment=True)
     seen = set()
     for f, sid, var, why in found:
         if not f.qname.startswith("mtest::"):
             continue        # the tokenizer's own local iterators belong to C35; its helpers reach mtest through summaries
         loc = rel(f.short_loc(sid)) if sid in f.stmts else rel(f.loc)
+        if why == "incremented":
+            # UNCHECKED-INCREMENT: '++p' where p may already be the end (typically after a helper that consumed a token): the iterator
+            # goes past end(), the next 'p == end' test does not fire and the following read is out of the vector
+            key = "UNCHECKED-INCREMENT@%s#%s" % (f.qname, var)
+            if key not in seen:
+                seen.add(key)
+                rep.fail(key, "%s: in %s the token iterator '%s' is incremented on a path where it may already be the end of the token vector "
+                         "(a helper has just consumed a token): it moves past end(), later end tests do not fire and the next read is out of "
+                         "the vector" % (loc, f.qname, var))
+            continue
         key = "UNCHECKED-DEREF@%s#%s" % (f.qname, var)
         if key in seen:
             continue
